@@ -834,6 +834,10 @@ func jsonScalar(n *Node, den string, ietf bool) any {
 	return jsonScalarT(nodeScalarType(n), den, ietf)
 }
 
+// JSONScalar / JSONElem: the JSON value of a leaf (an element of a leaf-list) of node n as a document carries it.
+func JSONScalar(n *Node, den string, ietf bool) any { return jsonScalar(n, den, ietf) }
+func JSONElem(n *Node, el string, ietf bool) any    { return jsonScalarT(nodeScalarType(n), el, ietf) }
+
 func jsonScalarT(st scalarType, den string, ietf bool) any {
 	t := st.Type
 	if t == "leafref" {
